@@ -40,6 +40,7 @@ def gen(rnd, complete=None):
         edges = [(a, b) for a in range(n) for b in range(a + 1, n) if rnd.random() < q]
     rnd.shuffle(edges)
     period = rnd.choice([1.0, 1.0, 2.0, 0.5, 1.5, 0.7, 3.0])
+    if rnd.random() < 0.25: period = rnd.choice([0.333333, 1 / 3, 0.7142843, 0.123456, 1.2345678, 2.000003])      # not multiples of the 1e-5 grid firing times are rounded to
     b = rnd.choice([1.0, 2.0, 0.5, 3.0])
     coupling = rnd.choice([0.01, 0.05, 0.1, 0.25, 0.5, 1.0])
     pool = [rnd.random() for _ in range(3)]
@@ -62,8 +63,8 @@ def run(spec):
     period = spec['period']
     st = dict(taps=[], groups=None)
 
-    def vio(msg):
-        if not viol: viol.append(('pulse', msg))
+    def vio(msg, offgrid=False):
+        if not viol: viol.append(('pulse-offgrid' if offgrid else 'pulse', msg))
 
     orig_cascade = p.cascade
 
@@ -99,14 +100,18 @@ def run(spec):
         if firedn is not None:
             ft = d.pendingEventTime(gg.nodes[firedn][p.NODE_EVENT_ID])
             if ft != round(now + period, 5): return vio(f"node {firedn} fired at {now} and is rescheduled for {ft}, not one period ({period}) later")
-        if spec['complete']:
+        # known finding K4: for a period below 1 that is not a multiple of 1e-5 a node that has just fired reads back phase 1e-5, is bumped by the
+        # nodes firing at the same instant, and a synchronised group splits until its next firing; the clause is judged there only in the
+        # recorded replay (spec['k4']), under its own signature
+        offgrid = period < 1.0 and abs(round(period, 5) - period) > 1e-12
+        if spec['complete'] and (not offgrid or spec.get('k4')):
             ph = [p.getPhase(now, n, normalise=True) for n in gg.nodes()]
             cnt = {}
             for x in ph: cnt[x] = cnt.get(x, 0) + 1
             cur = (len(cnt), max(cnt.values()))
             if st['groups'] is not None:
-                if cur[0] > st['groups'][0]: return vio(f"complete network: distinct phases went from {st['groups'][0]} to {cur[0]} at t={now}")
-                if cur[1] < st['groups'][1]: return vio(f"complete network: largest synchronised group shrank from {st['groups'][1]} to {cur[1]} at t={now}")
+                if cur[0] > st['groups'][0]: return vio(f"complete network, period {period}: distinct phases went from {st['groups'][0]} to {cur[0]} at t={now}", offgrid)
+                if cur[1] < st['groups'][1]: return vio(f"complete network, period {period}: largest synchronised group shrank from {st['groups'][1]} to {cur[1]} at t={now}", offgrid)
             st['groups'] = cur
 
     class D(Dyn):
